@@ -300,6 +300,81 @@ func scenario(kind string, fixed []int, kills []int, nth int) {
 	out.Case(true, fields...)
 }
 
+// two PROGRAMS whose counter files have the same name but whose metadata differ
+// (in length, or in content only): the first creates the file and records
+// counters, the second opens it with ITS metadata and, if admitted, records
+// counters too.  Whatever the second one is told, the first program's file
+// must stay well formed and keep its counters.
+func headerMismatchCase(la, lb int, sameLenOtherContent bool) {
+	dir, err := os.MkdirTemp(root, "h")
+	if err != nil {
+		panic(err)
+	}
+	defer os.RemoveAll(dir)
+	path := filepath.Join(dir, "c.count")
+	metaA, metaB := metaOfLen(la), metaOfLen(lb)
+	if sameLenOtherContent {
+		metaB = strings.Replace(metaA, "Program: p", "Program: q", 1)
+	}
+	hdrA, _ := counter.VerifMappedHeader(metaA)
+	H := uint32(len(hdrA))
+	vatomic.ResetClosed()
+	vosc.Reset(nil)
+	vosc.Yielding = false
+	status := "ok"
+	admitted := false
+	namesA := []string{"a0", "other", "third/name", "long" + strings.Repeat("g", 300)}
+	func() {
+		defer func() {
+			if r := recover(); r != nil {
+				status = "panic"
+			}
+		}()
+		ha, err := counter.VerifOpenHandle(path, metaA)
+		if err != nil {
+			panic(err)
+		}
+		for i, nm := range namesA {
+			c, m1, err := ha.NewCounter(nm)
+			if err != nil {
+				panic(err)
+			}
+			if m1 != nil {
+				ha = m1
+			}
+			counter.VerifCellAdd(ha, c, uint64(i+1))
+		}
+		hb, err := counter.VerifOpenHandle(path, metaB)
+		if err == nil {
+			admitted = true
+			for i := 0; i < 6; i++ {
+				c, m1, err := hb.NewCounter("b" + strconv.Itoa(i) + strings.Repeat("x", 40*i))
+				if err != nil {
+					break
+				}
+				if m1 != nil {
+					hb = m1
+				}
+				counter.VerifCellAdd(hb, c, 7)
+			}
+		}
+	}()
+	d, _ := os.ReadFile(path)
+	recs, walkOK := linked(d, H)
+	kept := 0
+	for i, nm := range namesA {
+		for _, r := range recs {
+			if r.name == nm && r.val == uint64(i+1) {
+				kept++
+				break
+			}
+		}
+	}
+	out.Case(true, "hm", I(int64(len(metaA))), I(int64(len(metaB))), B(sameLenOtherContent), status, B(admitted),
+		B(bytes.HasPrefix(d, hdrA)), B(walkOK), I(int64(len(namesA))), I(int64(kept)))
+	out.Note("header-mismatch")
+}
+
 func main() {
 	outPath := os.Args[1]
 	n, _ := strconv.Atoi(os.Args[2])
@@ -321,6 +396,17 @@ func main() {
 			fixed = append(fixed, 0)
 		}
 		scenario("absent", fixed, []int{k, -1}, 2)
+		c++
+	}
+	// two programs, one file name, different metadata (longer, shorter, same length)
+	for _, p := range [][2]int{{60, 93}, {93, 60}, {10, 200}, {200, 10}, {60, 61}, {93, 92}} {
+		if c < n {
+			headerMismatchCase(p[0], p[1], false)
+			c++
+		}
+	}
+	if c < n {
+		headerMismatchCase(93, 93, true)
 		c++
 	}
 	// every interleaving prefix of two creators on an absent file up to 5 calls each, then random
